@@ -12,9 +12,10 @@
      tests it for truthiness, so [tail] is a plain string ([] = None = "").
    * The table key [etree.tounicode(element)] is modelled by [knorm element]
      (the subtree itself, with an empty-string text in front of children
-     identified with no text, which lxml prints identically).  ASSUMPTION:
-     lxml's serialisation is injective on such subtrees (attribute order as
-     stored).  Documents do not use namespaces / the diff namespace.
+     identified with no text, which lxml prints identically).  That the
+     string key of the code and this key identify the same elements is proved
+     in SerializeProofs.v for a model of lxml's serialisation (XV.Serialize,
+     itself compared with lxml on every run); see Properties/C11_serial.v.  Documents do not use namespaces / the diff namespace.
    * Comments and processing instructions are read as childless nodes with
      reserved tag names ("#comment", "#pi:<target>", [text] = content, [tail]
      = tail).  The code handles them exactly like a non-formatting child
